@@ -311,6 +311,8 @@ class StmtMixin:
                               "and has no invariant in the contract files")
         n = seq.length
         base = f"{qual}/loop{ordinal}"
+        if spec.ghost_init is not None:
+            spec.ghost_init(self, frame)
         ns0 = self._loop_namespace(spec, frame)
         # init
         self.prove(f"{base}/inv-init", _b(spec.inv(self, ns0, _z(start), frame)))
@@ -333,6 +335,8 @@ class StmtMixin:
                 return  # continue after the loop (else-clause skipped)
             except ContinueSignal:
                 pass
+            if spec.ghost_step is not None:
+                spec.ghost_step(self, frame, k)
             ns2 = self._loop_namespace(spec, frame)
             self.prove(f"{base}/inv-preserve", _b(spec.inv(self, ns2, k + 1, frame)))
             raise PathAbort()
@@ -347,10 +351,25 @@ class StmtMixin:
 
     def _loop_namespace(self, spec, frame):
         ns = {}
-        for name in spec.vars:
+        for name, sort in spec.vars.items():
             ok, v = frame.lookup(name)
-            ns[name] = v if ok else None
+            ns[name] = self.coerce_to_sort(v if ok else None, sort)
         return NS(ns)
+
+    def coerce_to_sort(self, v, sort):
+        """Present a program value in the representation the invariant is written against."""
+        if sort == "intlist" and isinstance(v, (list, tuple)):
+            arr = z3.K(z3.IntSort(), z3.IntVal(0))
+            for i, x in enumerate(v):
+                arr = z3.Store(arr, i, _z(_as_int(x)))
+            return SList((arr,), len(v))
+        if sort == "optint" and not isinstance(v, OptVal):
+            if v is None:
+                return OptVal(True, z3.IntVal(0))
+            return OptVal(False, _z(v))
+        if sort == "optint" and isinstance(v, OptVal) and v.resolved is not None:
+            return OptVal(v.resolved == "none", v.val)
+        return v
 
     def havoc_loop_vars(self, spec, frame):
         for name, sort in spec.vars.items():
@@ -369,6 +388,8 @@ class StmtMixin:
             ln = self.fresh_int(hint + "_len")
             self.assume(ln >= 0)
             return SList((self.fresh_array(hint),), ln)
+        if sort == "intarray":
+            return self.fresh_array(hint.strip("$"))
         if sort == "keep":
             return None
         raise Unsupported(f"havoc sort {sort}")
